@@ -7,7 +7,7 @@
   machines over all interleavings).  Members are scripted leaves with arbitrary contents and fault
   schedules.  Tie: operation sequences on the real wrappers around scripted members are compared
   with `Chain.getChunk`/`hasChunk` including every member's call log; FailoverGroup and SwapStore
-  are stressed concurrently.
+  are run under a cooperative scheduler and their event traces replayed through the machines.
 -/
 import Desync.Generated.Facts
 import Desync.Proofs.ChainProofs
@@ -83,32 +83,135 @@ theorem failover_missing_not_masked (w : Chain.World) (g : Nat) (members : List 
     (Chain.grpGet w g members id).1 = .missing :=
   Chain.grpGet_missing_not_masked w g members id hne h hact
 
-/-- **all interleavings**: with a permanently healthy member no concurrent request ever exhausts
-    its attempts — the group keeps succeeding -/
-theorem failover_never_fails (n h k : Nat) (hn : 1 ≤ n) (hh : h < n) (s : Failover.St)
-    (hr : Failover.Reachable (Failover.St.init n h k) s) : ∀ t : Nat, s.callers[t]? ≠ some Failover.PC.failed :=
-  Failover.never_fails n h k hn hh s hr
+/-! The concurrent machines (`Model/Failover.lean`, `Model/Swap.lean`) run at the granularity of the
+mutex operations and are validated against event traces recorded from the real code
+(`failover.accept`, `swap.accept`).  `wp` = writer preference of the mutex on or off, `tr` = the
+members are replicas; every theorem holds for both values of both. -/
 
-/-- and no request gets stuck -/
-theorem failover_no_deadlock (n h k : Nat) (hn : 1 ≤ n) (hh : h < n) (s : Failover.St)
-    (hr : Failover.Reachable (Failover.St.init n h k) s) (t : Nat) (pc : Failover.PC)
-    (hpc : s.callers[t]? = some pc) (hok : pc ≠ Failover.PC.ok) :
-    ∃ e s', e.caller = t ∧ Failover.step s e = some s' :=
-  Failover.no_deadlock n h k hn hh s hr t pc hpc hok
+/-- **all interleavings**: with a permanently healthy member no concurrent request — `GetChunk` or
+    `HasChunk` — ever exhausts its attempts: the group keeps succeeding, whatever the other members do
+    (fail, recover, answer differently) and however many callers fail over at the same time -/
+theorem failover_never_fails (n h : Nat) (wp tr : Bool) (reqs : List (Failover.Op × Bool)) (hn : 1 ≤ n) (hh : h < n)
+    (s : Failover.St) (hr : Failover.Reachable (Failover.St.init n h wp tr reqs) s) :
+    ∀ t : Nat, s.callers[t]? ≠ some Failover.PC.failed :=
+  Failover.never_fails n h wp tr reqs hn hh s hr
+
+/-- and no request gets stuck: a caller that has not returned has an enabled event of its own, or it
+    waits for the mutex and a holder of the mutex has an enabled event (holders never block), or it
+    waits behind an announced writer that can take the lock now -/
+theorem failover_no_deadlock (n h : Nat) (wp tr : Bool) (reqs : List (Failover.Op × Bool)) (hn : 1 ≤ n) (hh : h < n)
+    (s : Failover.St) (hr : Failover.Reachable (Failover.St.init n h wp tr reqs) s) (t : Nat) (pc : Failover.PC)
+    (hpc : s.callers[t]? = some pc) (hok : ∀ o a, pc ≠ Failover.PC.ok o a) :
+    (∃ (e : Failover.Ev) (s' : Failover.St), e.caller = t ∧ Failover.step s e = some s') ∨
+    (pc.waiting = true ∧ ∃ (u : Nat) (q : Failover.PC), u ≠ t ∧ s.callers[u]? = some q ∧
+      ((q.holds = true ∧ ∃ (e : Failover.Ev) (s' : Failover.St), e.caller = u ∧ Failover.step s e = some s') ∨
+       (q.isPendingW = true ∧ ∃ s', Failover.step s (.lock u) = some s'))) :=
+  Failover.no_deadlock n h wp tr reqs hn hh s hr t pc hpc hok
+
+/-- `active` only moves when the member it points to has failed a request: the step is the
+    `errorFrom(a)` of a caller holding the write lock with `a = active` (the `i == g.active` guard: a
+    second caller reporting the same member finds `active` moved and changes nothing); `active` moves
+    to the next member and never away from the healthy one -/
+theorem failover_active_only_moves_on_error_of_active (n h : Nat) (wp tr : Bool) (reqs : List (Failover.Op × Bool))
+    (hn : 1 ≤ n) (hh : h < n) (s s' : Failover.St) (hr : Failover.Reachable (Failover.St.init n h wp tr reqs) s)
+    (e : Failover.Ev) (hs : Failover.step s e = some s') (hne : s'.active ≠ s.active) :
+    ∃ t i, e = .errFrom t ∧ s.callers[t]? = some (.holdW i s.active) ∧ s.active ≠ h ∧
+      s'.active = (s.active + 1) % n :=
+  Failover.active_only_moves_on_error_of_active n h wp tr reqs hn hh s s' hr e hs hne
+
+/-- a request returns what a member answered, unmasked: a chunk or "missing" (`GetChunk`), a verdict
+    (`HasChunk`); it is the truth whenever it came from the healthy member or the members are replicas -/
+theorem failover_result_is_answer (n h : Nat) (wp tr : Bool) (reqs : List (Failover.Op × Bool)) (s : Failover.St)
+    (hr : Failover.Reachable (Failover.St.init n h wp tr reqs) s) (t : Nat) (o : Failover.Out) (a : Nat)
+    (hpc : s.callers[t]? = some (.ok o a)) :
+    ∃ op p, reqs[t]? = some (op, p) ∧ Failover.classify op o = some true ∧
+      (a = h ∨ tr = true → o = Failover.truth op p) :=
+  Failover.result_is_answer n h wp tr reqs s hr t o a hpc
+
+/-- `HasChunk` (no `ChunkMissing` arm: every error fails over): what it returns is a verdict, and the
+    true one from the healthy member or from replicas -/
+theorem failover_has_healthy (n h : Nat) (wp tr : Bool) (reqs : List (Failover.Op × Bool)) (s : Failover.St)
+    (hr : Failover.Reachable (Failover.St.init n h wp tr reqs) s) (t : Nat) (p : Bool)
+    (hreq : reqs[t]? = some (.has, p)) (o : Failover.Out) (a : Nat) (hpc : s.callers[t]? = some (.ok o a)) :
+    ∃ b, o = .has b ∧ (a = h ∨ tr = true → b = p) :=
+  Failover.has_healthy n h wp tr reqs s hr t p hreq o a hpc
+
+/-- the lock discipline that makes `current()` and `errorFrom()` atomic: a caller inside `errorFrom`
+    is alone, and the `active` read inside `current()` stays the current one while the read lock is held -/
+theorem failover_lock_discipline (n h : Nat) (wp tr : Bool) (reqs : List (Failover.Op × Bool)) (s : Failover.St)
+    (hr : Failover.Reachable (Failover.St.init n h wp tr reqs) s) :
+    (∀ (t u : Nat) (p q : Failover.PC), s.callers[t]? = some p → s.callers[u]? = some q → t ≠ u →
+      p.isWriter = true → q.holds = false) ∧
+    (∀ (t i a : Nat), s.callers[t]? = some (.holdR i a) → a = s.active) :=
+  ⟨(Failover.mutex n h wp tr reqs s hr).excl, (Failover.mutex n h wp tr reqs s hr).pin⟩
+
+/-- non-vacuity: three members, the healthy one last; two callers (a `GetChunk` and a `HasChunk`) both
+    call member 0, both get an error and both report it: the first advances `active`, the second finds
+    it moved (stale) — then member 1 fails the first caller again; both end with the healthy member's answer -/
+example : ∃ s, Failover.Reachable (Failover.St.init 3 2 true false [(.get, true), (.has, false)]) s ∧
+    s.callers = [.ok .chunk 2, .ok (.has false) 2] ∧ s.active = 2 :=
+  ⟨_, Failover.run_reachable .refl
+    [.wantR 0, .rlock 0, .wantR 1, .rlock 1, .runlock 0, .runlock 1, .call 0 0, .call 1 0, .ret 0 .error, .ret 1 .missing,
+     .wantW 0, .wantW 1, .lock 0, .errFrom 0, .unlock 0, .lock 1, .errFrom 1, .unlock 1,
+     .wantR 0, .rlock 0, .runlock 0, .call 0 1, .ret 0 .error, .wantW 0, .lock 0, .errFrom 0, .unlock 0,
+     .wantR 1, .rlock 1, .runlock 1, .call 1 2, .ret 1 (.has false),
+     .wantR 0, .rlock 0, .runlock 0, .call 0 2, .ret 0 .chunk] rfl, rfl, rfl⟩
+
+/-- without a healthy member (`h` names none of the two) a request does fail: the hypothesis `h < n` of
+    `failover_never_fails` is needed -/
+example : ∃ s, Failover.Reachable (Failover.St.init 2 7 true false [(.get, true)]) s ∧ s.callers = [.failed] :=
+  ⟨_, Failover.run_reachable .refl
+    [.wantR 0, .rlock 0, .runlock 0, .call 0 0, .ret 0 .error, .wantW 0, .lock 0, .errFrom 0, .unlock 0,
+     .wantR 0, .rlock 0, .runlock 0, .call 0 1, .ret 0 .error, .wantW 0, .lock 0, .errFrom 0, .unlock 0,
+     .giveUp 0] rfl, rfl⟩
 
 /-! ### swap -/
 
-/-- **all interleavings**: a request in flight never runs on a store that has been closed by a swap -/
-theorem swap_no_use_after_close (k : Nat) (s : Swap.St) (hr : Swap.Reachable (Swap.St.init k) s) (t e : Nat)
-    (ht : s.callers[t]? = some (Swap.PC.inReq e)) : e ∉ s.closed ∧ e = s.current :=
-  Swap.no_use_after_close k s hr t e ht
+/-- **all interleavings**: the store a request has read under the read lock — before, during and after
+    its member call — is the installed one and has not been closed by any `Swap` -/
+theorem swap_no_use_after_close (curW wp : Bool) (roles : List Swap.Role) (s : Swap.St)
+    (hr : Swap.Reachable (Swap.St.init curW wp roles) s) (t : Nat) (p : Swap.PC) (e : Nat)
+    (ht : s.callers[t]? = some p) (he : p.epoch = some e) : e ∉ s.closedSwap ∧ e = s.current :=
+  Swap.no_use_after_close curW wp roles s hr t p e ht he
 
-/-- no request is lost or blocked forever; a swap waits exactly for the requests in flight -/
-theorem swap_progress (k : Nat) (s : Swap.St) (hr : Swap.Reachable (Swap.St.init k) s) :
-    (∀ t : Nat, s.callers[t]? = some .idle → ∃ s', Swap.step s (.enter t) = some s') ∧
-    (∀ (t : Nat) e, s.callers[t]? = some (Swap.PC.inReq e) → ∃ s', Swap.step s (.leave t) = some s') ∧
-    ((∀ (t : Nat) e, s.callers[t]? ≠ some (Swap.PC.inReq e)) → ∃ s', Swap.step s .swap = some s') :=
-  Swap.progress k s hr
+/-- a `Swap` between taking and releasing the write lock is alone: no request in flight, no other `Swap` -/
+theorem swap_writer_alone (curW wp : Bool) (roles : List Swap.Role) (s : Swap.St)
+    (hr : Swap.Reachable (Swap.St.init curW wp roles) s) (t u : Nat) (p q : Swap.PC)
+    (hp : s.callers[t]? = some p) (hq : s.callers[u]? = some q) (hne : t ≠ u) (hw : p.isWriter = true) :
+    q.holds = false :=
+  Swap.writer_alone curW wp roles s hr t u p q hp hq hne hw
+
+/-- no request is lost or blocked for ever: a caller that has not returned has an enabled event of its
+    own, or waits for the mutex while a holder has one (a swap waits exactly for the requests in flight,
+    requests wait exactly for a swap), or waits behind an announced `Swap` that can take the lock now -/
+theorem swap_progress (curW wp : Bool) (roles : List Swap.Role) (s : Swap.St)
+    (hr : Swap.Reachable (Swap.St.init curW wp roles) s) (t : Nat) (pc : Swap.PC)
+    (hpc : s.callers[t]? = some pc) (hfin : pc.final = false) :
+    (∃ (e : Swap.Ev) (s' : Swap.St), e.caller = t ∧ Swap.step s e = some s') ∨
+    (pc.waiting = true ∧ ∃ (u : Nat) (q : Swap.PC), u ≠ t ∧ s.callers[u]? = some q ∧
+      ((q.holds = true ∧ ∃ (e : Swap.Ev) (s' : Swap.St), e.caller = u ∧ Swap.step s e = some s') ∨
+       (q.isPendingW = true ∧ ∃ s', Swap.step s (.lock u) = some s'))) :=
+  Swap.progress curW wp roles s hr t pc hpc hfin
+
+/-- `SwapWriteStore.StoreChunk` asserts `s.s.(WriteStore)`: on a wrapper built on a writable store the
+    installed store stays writable through every swap (others are refused) and the assertion never panics -/
+theorem swap_store_never_panics (wp : Bool) (roles : List Swap.Role) (s : Swap.St)
+    (hr : Swap.Reachable (Swap.St.init true wp roles) s) :
+    s.curW = true ∧ ∀ (t e : Nat), s.callers[t]? ≠ some (.panicked e) :=
+  Swap.store_never_panics wp roles s hr
+
+/-- non-vacuity: a `StoreChunk` in flight on store 0 while a `Swap` announces itself; the swap waits,
+    the request finishes on store 0, then store 0 is closed and store 1 installed; a `GetChunk`
+    that came later runs on store 1 -/
+example : ∃ s, Swap.Reachable (Swap.St.init true true [.req .store, .swap true, .req .get]) s ∧
+    s.callers = [.done 0, .swapped, .done 1] ∧ s.closedSwap = [0] ∧ s.current = 1 :=
+  ⟨_, Swap.run_reachable .refl
+    [.wantR 0, .rlock 0 0, .enter 0 0, .wantW 1, .wantR 2, .exit 0 0, .runlock 0, .lock 1, .closeOld 1 0, .install 1,
+     .unlock 1, .rlock 2 1, .enter 2 1, .exit 2 1, .runlock 2] rfl, rfl, rfl, rfl⟩
+
+/-- a wrapper that was built on a store that is not writable does panic in `StoreChunk` -/
+example : ∃ s, Swap.Reachable (Swap.St.init false true [.req .store]) s ∧ s.callers = [.panicked 0] :=
+  ⟨_, Swap.run_reachable .refl [.wantR 0, .rlock 0 0, .runlock 0] rfl, rfl⟩
 
 /-- **regenerated obligation**: the local store a cache is built on writes a chunk unconditionally — `StoreChunk`
     does not look at what is already there — so that `cache_repair` (an invalid cached chunk is replaced from
